@@ -7,6 +7,10 @@
 //	             CertificateVerify, sends unrequested / missing Certificate messages, …    (B)
 //	kind=hist    two connections of one real client against two server Configs that share
 //	             one SessionCache (policy pol, then pol2; cfg2 = same | otherca | later)   (C)
+//	kind=shist   two connections of one SCRIPTED client against two such Configs: the second
+//	             ClientHello offers the session id the first connection announced and the script
+//	             resumes with the master secret it derived itself — also when the first handshake
+//	             was refused (a real client never offers the session of a failed handshake)   (D)
 //
 // The case line carries the scenario (the tokens needed to re-execute it) followed by the
 // client's *behaviour as seen on the wire* (which handshake messages it sent, how many
@@ -15,7 +19,7 @@
 // model and spec. The observation is what the real server reported.
 //
 //	case:  stack= kind= suite= pol= [pol2= cfg2=] cli=  K.e= K.msg= K.n= K.parse= K.c0= K.c1=
-//	       K.kx= K.cv= K.fin= [K.sig=]  (K = 1, 2)   [now0= now1=]
+//	       K.kx= K.cv= K.fin= [K.sig=]  (K = 1, 2)   [2.offer= now0= now1=]
 //	       c0 / c1: the verdicts of certificate 0 / 1 EACH ON ITS OWN (okClient okClientOrServer
 //	       okAnyUsage) and the kind of its public key (s SM2, p other curve, r RSA, x other)
 //	obs :  K.srv=done|err K.resumed= K.peers= K.chains= K.req= K.cls= K.alert= K.cli=
@@ -496,6 +500,13 @@ func reqTok(f flight) string {
 	return b01(f.has(13))
 }
 
+// offerTok: does the (first) ClientHello of the flight carry a session id?
+// body = version(2) random(32) session_id<0..32> …, on both stacks
+func offerTok(f flight) string {
+	m := f.get(1)
+	return b01(m != nil && len(m.body) > 34 && m.body[34] > 0)
+}
+
 func alertTok(f flight) string {
 	if len(f.alerts) == 0 {
 		return "-"
@@ -512,7 +523,7 @@ type scen struct {
 
 func (s scen) desc() string {
 	d := fmt.Sprintf("stack=%s kind=%s suite=%s pol=%s", s.stack, s.kind, s.suite, s.pol)
-	if s.kind == "hist" {
+	if s.kind == "hist" || s.kind == "shist" {
 		d += fmt.Sprintf(" pol2=%s cfg2=%s", s.pol2, s.cfg2)
 	}
 	return d + " cli=" + s.cli
@@ -771,6 +782,35 @@ func generate(o hx.Opts) []scen {
 					for _, p1 := range []string{"RequestClientCert", "RequireAnyClientCert", "RequireAndVerifyClientCert"} {
 						for _, p2 := range policies {
 							out = append(out, scen{st, "hist", su, p1, p2, c2, "trusted"})
+						}
+					}
+				}
+			}
+		}
+	}
+	// scripted histories: the second connection offers the session id the first one announced,
+	// with the master secret the script derived itself — after EVERY kind of first connection
+	// (completed, refused at the certificates, at the CertificateVerify, at the Finished, …)
+	if want("shist") {
+		for _, st := range stacks {
+			if st == "dtlcp" && !dtlcpScriptAvailable {
+				continue
+			}
+			// the plain attack first: somebody else's trusted certificate, CertificateVerify by another key
+			out = append(out, scen{st, "shist", "e013", "RequireAndVerifyClientCert", "RequireAndVerifyClientCert", "same", "s-cvotherkey"})
+			for _, su := range suites {
+				for _, p1 := range policies {
+					for _, p2 := range policies {
+						for _, cli := range scriptClients {
+							out = append(out, scen{st, "shist", su, p1, p2, "same", cli})
+						}
+					}
+				}
+				// a second configuration with other client roots / a later clock
+				for _, c2 := range []string{"otherca", "later"} {
+					for _, p1 := range []string{"RequireAnyClientCert", "RequireAndVerifyClientCert"} {
+						for _, cli := range scriptClients {
+							out = append(out, scen{st, "shist", su, p1, "RequireAndVerifyClientCert", c2, cli})
 						}
 					}
 				}
